@@ -374,7 +374,7 @@ func (x *Exec) mergeValue(cond *Term, a, b Value) Value {
 	case ArrayV:
 		bv := b.(ArrayV)
 		out := ArrayV{L: map[string]*Term{}, N: av.N}
-		for k := range av.L {
+		for _, k := range sortedKeys(av.L) {
 			out.L[k] = x.c.Ite(cond, av.L[k], bv.L[k])
 		}
 		return out
